@@ -209,6 +209,7 @@ struct Agg {
 	std::map<std::string, uint64_t> counters;
 	std::set<uint64_t> features, features2, traces;
 	std::map<std::string, long> per_scen;
+	std::map<long, std::string> trace_of;   // run index -> "trace verdict scenario"
 	struct Viol { long idx; std::string cls, sig, msg, trace; };
 	std::vector<Viol> viols;
 };
@@ -261,6 +262,7 @@ static void handle_line(Agg &g, Worker &w, const std::string &line)
 		++g.runs;
 		++g.per_scen[scen];
 		g.traces.insert(strtoull(trace.c_str(), nullptr, 16));
+		g.trace_of[idx] = trace + " " + okv + " " + scen;
 		if (tabs.size() > 1 && !tabs[1].empty())
 			for (auto &kv : split(tabs[1], ',')) {
 				size_t eq = kv.find('=');
@@ -443,6 +445,11 @@ static int cmd_run(const Args &a)
 		}
 	}
 
+	{
+		// per-run trace hashes: the determinism protocol diffs these files
+		std::ofstream tf(a.outdir + "/traces.txt");
+		for (auto &e : g.trace_of) tf << e.first << " " << e.second << "\n";
+	}
 	std::ofstream o(a.outdir + "/summary.json");
 	o << "{\n";
 	o << " \"prop\": " << json_str(a.prop) << ",\n \"tier\": " << json_str(a.tier) << ",\n \"flavour\": " << json_str(g_flavour) << ",\n";
